@@ -14,9 +14,11 @@ Mirrors (as coded) `apply`, `_resolve`, `_resolve_findby`, `_operate_create/exte
   `Action.piece`; an instruction whose parent promise is unresolved is re-filed whole (`Action.whole`).
 * Fresh UUIDs are *inputs*: every creation site of the document carries the id its object will get
   (`nid`; a sync entry carries a second one for the re-creation described at `Work.resync`).
-* The metamodel is a parameter: which class an untyped creation in list `attr` yields is given by
-  `dflt`.  Attribute existence / coupling checks (`TypeError`s of `_create_complex_objects`) and
-  `create_singleattr` (plain string children) are not modelled.
+* The metamodel is a parameter `MM` (generated from the live classes as `Capella/Gen/DeclMeta*.lean`):
+  for every (class, attribute) what `getattr(parent, attr)` is for `_create_complex_objects` (no such
+  attribute / not a list, a list that is not model-coupled, a coupled list with the way its accessor
+  creates members, its `single_attr` and `fixed_length`), and which `_type` hints `_match_xtype` accepts.
+  `MM.free dflt` is the permissive metamodel (every attribute a coupled list, every hint a class).
 -/
 namespace Capella.Decl
 
@@ -51,6 +53,8 @@ inductive Item
   | obj (nid : Id) (pid : Option Str) (ty : Option Str) (scal : List (Str × Val))
       (kids : List (Str × List Item))
   | ref (v : Val)
+  /-- a plain string child: `target.create_singleattr(child)`; `nid` is the id its object gets -/
+  | str (nid : Id) (s : Str)
   deriving Inhabited
 
 inductive SetVal
@@ -238,6 +242,9 @@ def resolveRefs (ps : Promises) (g : Graph) : List Item → List Item × Option 
   | .obj n p t s k :: l =>
     let (l', e) := resolveRefs ps g l
     (.obj n p t s k :: l', e)
+  | .str n s :: l =>
+    let (l', e) := resolveRefs ps g l
+    (.str n s :: l', e)
   | .ref v :: l =>
     match resolveVal ps g v with
     | .error e => (.ref v :: l, some e)
@@ -274,28 +281,106 @@ def State.fulfilOpt (s : State) (pid : Option Str) (i : Id) : Except Err State :
   | none => .ok s
   | some p => s.fulfil p i
 
-/-- the class `target.create` instantiates: the `_type` hint or the metamodel's default for the list -/
-def classFor (dflt : List (Str × Str)) (attr : Str) (ty : Option Str) : Str :=
-  match ty with
-  | some t => t
-  | none => (dflt.lookup attr).getD attr
+/-! ## the metamodel (what `decl` asks of the object layer) -/
 
-/-- one child of `_create_complex_objects` (the agenda already holds the rest of the loop) -/
-def stepItem (dflt : List (Str × Str)) (s : State) (par : Id) (attr : Str) : Item → Except Err State
+/-- how the accessor of a coupled list creates a member (`WritableAccessor.create` and its overrides) -/
+inductive Creator
+  /-- `_create`: a `_type` hint goes through `_match_xtype`, no hint through `_guess_xtype`
+  (`dflt = none`: "Multiple/No matching xsi:type" ValueError) -/
+  | xtype (dflt : Option Str)
+  /-- `WritableAccessor.create` not overridden: TypeError "Cannot create objects" -/
+  | cannot
+  /-- an accessor whose `create` is not modelled (outcome not compared) -/
+  | other (name : Str)
+  deriving DecidableEq, Repr, Inhabited
+
+/-- what `getattr(parent, attr)` is, as far as `_create_complex_objects` looks -/
+inductive AttrKind
+  /-- AttributeError, or not an `ElementList`: TypeError -/
+  | absent
+  /-- an `ElementList` without `ElementListCouplingMixin`: TypeError "not model-coupled" -/
+  | uncoupled
+  /-- a coupled list: its creator, `single_attr`, `fixed_length` (0 = free) -/
+  | coupled (cr : Creator) (single : Option Str) (fixed : Nat)
+  deriving DecidableEq, Repr, Inhabited
+
+structure MM where
+  /-- class → attribute → kind -/
+  kind : Str → Str → AttrKind
+  /-- `_match_xtype(hint)`: the class, or ValueError (unknown / ambiguous) -/
+  hint : Str → Option Str
+
+/-- the permissive metamodel: every attribute of every class is a free coupled list creating
+`dflt[attr]` (or a class named like the attribute), every hint names a class -/
+def MM.free (dflt : List (Str × Str)) : MM where
+  kind := fun _ attr => .coupled (.xtype (some ((dflt.lookup attr).getD attr))) none 0
+  hint := fun h => some h
+
+/-- table-driven metamodel (rows generated from the live classes) -/
+def MM.ofTable (attrs : List ((Str × Str) × AttrKind)) (hints : List (Str × Option Str)) : MM where
+  kind := fun c a => (attrs.lookup (c, a)).getD .absent
+  hint := fun h => (hints.lookup h).getD none
+
+/-- `getattr(parent, attr)` for an object of the graph (an id outside the graph has the class `""`,
+which the generated tables do not know) -/
+def attrKind (mm : MM) (g : Graph) (par : Id) (attr : Str) : AttrKind :=
+  mm.kind ((g.clsOf par).getD []) attr
+
+/-- the class `accessor.create(list, *type_hint, …)` instantiates, or its exception -/
+def Creator.classFor (mm : MM) : Creator → Option Str → Except Err Str
+  | .cannot, _ => .error .typeError
+  | .other _, _ => .error .typeError
+  | .xtype _, some h => match mm.hint h with
+    | some c => .ok c
+    | none => .error .valueError
+  | .xtype (some d), none => .ok d
+  | .xtype none, none => .error .valueError
+
+/-- the checks at the head of `_create_complex_objects` -/
+def checkTarget (mm : MM) (g : Graph) (par : Id) (attr : Str) : Except Err (Creator × Option Str × Nat) :=
+  match attrKind mm g par attr with
+  | .absent => .error .typeError
+  | .uncoupled => .error .typeError
+  | .coupled cr sg fx => .ok (cr, sg, fx)
+
+/-- `ElementListCouplingMixin.create`: the fixed-length guard, then the accessor -/
+def createClass (mm : MM) (g : Graph) (par : Id) (attr : Str) (cr : Creator) (fx : Nat) (ty : Option Str) :
+    Except Err Str :=
+  if fx ≠ 0 ∧ fx ≤ (g.members par attr).length then .error .typeError else cr.classFor mm ty
+
+/-- one child of `_create_complex_objects` (the agenda already holds the rest of the loop); the target
+checks run at the head of the generator, i.e. before the first child — re-evaluating them per child gives
+the same answer, the class of `par` and the metamodel do not change -/
+def stepItem (mm : MM) (s : State) (par : Id) (attr : Str) (x : Item) : Except Err State :=
+  match checkTarget mm s.g par attr with
+  | .error e => .error e
+  | .ok (cr, sg, fx) =>
+  match x with
   | .ref v =>
     match resolveVal s.ps s.g v with
     | .error (.unres p) => .ok (s.defer p (.piece par (.item attr (.ref v))))
     | .error (.err e) => .error e
     | .ok (.obj i) => .ok { s with g := s.g.append par attr i }
     | .ok (.str _) => .error .typeError
+  | .str nid str =>
+    -- `create_singleattr`: TypeError without `single_attr`, else `create(**{single_attr: child})`
+    match sg with
+    | none => .error .typeError
+    | some k =>
+      match createClass mm s.g par attr cr fx none with
+      | .error e => .error e
+      | .ok cls => .ok { s with g := s.g.create par attr nid cls [(k, .str str)] }
   | .obj nid pid ty scal kids =>
     match resolveScal s.ps s.g scal with
     | .error (.unres p) => .ok (s.defer p (.piece par (.item attr (.obj nid pid ty scal kids))))
     | .error (.err e) => .error e
-    | .ok rs => do
-      let s1 := { s with g := s.g.create par attr nid (classFor dflt attr ty) rs }
-      let s2 ← s1.fulfilOpt pid nid
-      pure { s2 with agenda := kids.map (fun kl => Work.items nid kl.1 kl.2) ++ s2.agenda }
+    | .ok rs =>
+      match createClass mm s.g par attr cr fx ty with
+      | .error e => .error e
+      | .ok cls => do
+        let s1 := { s with g := s.g.create par attr nid cls rs }
+        let s2 ← s1.fulfilOpt pid nid
+        pure { s2 with agenda := kids.map (fun kl => Work.items nid kl.1 kl.2) ++ s2.agenda }
 
 /-- one entry of `_operate_set` -/
 def stepSet (s : State) (par : Id) (attr : Str) : SetVal → Except Err State
@@ -383,7 +468,7 @@ def stepSync (s : State) (par : Id) (attr : Str) : SyncObj → Except Err State
 /-- the recursive `_operate_sync` call of the create branch: find again; when the object is still
 not there (its creation was deferred, or a `set` key overrode a `find` key) create one from the find
 keys alone and find once more — a third miss would recurse forever in Python (`Err.diverge`). -/
-def stepResync (dflt : List (Str × Str)) (s : State) (par : Id) (attr : Str) (nid2 : Id)
+def stepResync (mm : MM) (s : State) (par : Id) (attr : Str) (nid2 : Id)
     (ty : Option Str) (keys : List (Str × Atom)) (sync : List (Str × List SyncObj)) :
     Except Err State :=
   match resolveFind s.ps s.g (s.g.members par attr) ty keys with
@@ -391,7 +476,14 @@ def stepResync (dflt : List (Str × Str)) (s : State) (par : Id) (attr : Str) (n
   | .error (.err e) => .error e
   | .ok (some c, _) => .ok { s with agenda := sync.map (fun kl => Work.syncs c kl.1 kl.2) ++ s.agenda }
   | .ok (none, rk) =>
-    let g' := s.g.create par attr nid2 (classFor dflt attr ty) rk
+    -- `_create_complex_objects(promises, parent, attr, [find_args.attributes | …])`
+    match checkTarget mm s.g par attr with
+    | .error e => .error e
+    | .ok (cr, _, fx) =>
+    match createClass mm s.g par attr cr fx ty with
+    | .error e => .error e
+    | .ok cls =>
+    let g' := s.g.create par attr nid2 cls rk
     match g'.findAmong (g'.members par attr) ty rk with
     | .error e => .error e
     | .ok none => .error .diverge
@@ -419,48 +511,48 @@ def worksOf (par : Id) (i : Instr) : List Work :=
   i.del.map (fun kl => Work.dels par kl.1 kl.2)
 
 /-- `instruction = instructions.popleft()` (the agenda is empty, `s.queue` is already the rest) -/
-def startAction (dflt : List (Str × Str)) (s : State) : Action → Except Err State
+def startAction (mm : MM) (s : State) : Action → Except Err State
   | .whole i =>
     match resolveVal s.ps s.g i.parent with
     | .error (.unres p) => .ok (s.defer p (.whole i))
     | .error (.err e) => .error e
     | .ok (.str _) => .error .typeError
     | .ok (.obj par) => .ok { s with agenda := worksOf par i }
-  | .piece par (.item attr x) => stepItem dflt s par attr x
+  | .piece par (.item attr x) => stepItem mm s par attr x
   | .piece par (.setE attr v) => stepSet s par attr v
   | .piece par (.sync attr so) => stepSync s par attr so
-  | .piece par (.resync attr nid2 ty keys sync) => stepResync dflt s par attr nid2 ty keys sync
+  | .piece par (.resync attr nid2 ty keys sync) => stepResync mm s par attr nid2 ty keys sync
 
-def stepWork (dflt : List (Str × Str)) (s : State) : Work → Except Err State
-  | .items _ _ [] => .ok s
-  | .items par attr (x :: l) => stepItem dflt { s with agenda := Work.items par attr l :: s.agenda } par attr x
+def stepWork (mm : MM) (s : State) : Work → Except Err State
+  | .items par attr [] => (checkTarget mm s.g par attr).map fun _ => s
+  | .items par attr (x :: l) => stepItem mm { s with agenda := Work.items par attr l :: s.agenda } par attr x
   | .sets _ [] => .ok s
   | .sets par ((attr, v) :: l) => stepSet { s with agenda := Work.sets par l :: s.agenda } par attr v
   | .syncs _ _ [] => .ok s
   | .syncs par attr (so :: l) => stepSync { s with agenda := Work.syncs par attr l :: s.agenda } par attr so
-  | .resync par attr nid2 ty keys sync => stepResync dflt s par attr nid2 ty keys sync
+  | .resync par attr nid2 ty keys sync => stepResync mm s par attr nid2 ty keys sync
   | .fulfil p i => s.fulfil p i
   | .dels _ _ [] => .ok s
   | .dels par attr (v :: l) => stepDel { s with agenda := Work.dels par attr l :: s.agenda } par attr v
 
 /-- one transition; `none` = the `while instructions` loop has ended -/
-def step (dflt : List (Str × Str)) (s : State) : Except Err (Option State) :=
+def step (mm : MM) (s : State) : Except Err (Option State) :=
   match s.agenda with
-  | w :: rest => (stepWork dflt { s with agenda := rest } w).map some
+  | w :: rest => (stepWork mm { s with agenda := rest } w).map some
   | [] =>
     match s.queue with
     | [] => .ok none
-    | a :: q => (startAction dflt { s with queue := q } a).map some
+    | a :: q => (startAction mm { s with queue := q } a).map some
 
 /-- the `while instructions:` loop with fuel; `none` = fuel exhausted (never happens with the fuel
 `apply` supplies: `run_measure_some`) -/
-def run (dflt : List (Str × Str)) : Nat → State → Option (Except Err State)
+def run (mm : MM) : Nat → State → Option (Except Err State)
   | 0, _ => none
   | n + 1, s =>
-    match step dflt s with
+    match step mm s with
     | .error e => some (.error e)
     | .ok none => some (.ok s)
-    | .ok (some s') => run dflt n s'
+    | .ok (some s') => run mm n s'
 
 /-- `if deferred: raise UnfulfilledPromisesError(frozenset(deferred))`, else `return promises` -/
 def finish (s : State) : Except Err (Graph × Promises) :=
@@ -483,6 +575,7 @@ mutual
 def Item.mass : Item → Nat
   | .obj _ _ _ _ kids => 1 + kidsMass kids
   | .ref _ => 1
+  | .str _ _ => 1
 def kidsMass : List (Str × List Item) → Nat
   | [] => 0
   | (_, l) :: t => 1 + itemsMass l + kidsMass t
@@ -495,6 +588,7 @@ mutual
 def Item.pidN (f : Str → Nat) : Item → Nat
   | .obj _ pid _ _ kids => optN f pid + kidsPidN f kids
   | .ref _ => 0
+  | .str _ _ => 0
 def kidsPidN (f : Str → Nat) : List (Str × List Item) → Nat
   | [] => 0
   | (_, l) :: t => itemsPidN f l + kidsPidN f t
@@ -604,8 +698,8 @@ def State.measure (s : State) : Nat := s.D * (s.T + 1) + s.Q
 
 /-- `decl.apply`: run the loop (fuel = the measure of the initial state, proved sufficient), then
 the terminal check -/
-def apply (dflt : List (Str × Str)) (g : Graph) (doc : List Instr) : Except Err (Graph × Promises) :=
-  match run dflt ((init g doc).measure + 1) (init g doc) with
+def apply (mm : MM) (g : Graph) (doc : List Instr) : Except Err (Graph × Promises) :=
+  match run mm ((init g doc).measure + 1) (init g doc) with
   | none => .error .outOfFuel
   | some r => r.bind finish
 
